@@ -13,6 +13,7 @@ CONSTANTS
   Local = {"L"}
   MonPairs <- TrMonPairs
   Undecodable = {}
+  SweepKillsDraining = {TRUE}
 CONSTRAINT Progress
 INVARIANTS
   OrderOk PostStopOnlyGraceful NoOverlap NoStartAfterKill NoHandlerAfterStop
